@@ -10,6 +10,15 @@ import numpy as np
 SEEN_DELTA = []      # log of what the order-sensitive user function received
 
 
+def _module(**attrs):
+    """a module object (like a user's model file once imported) carrying the
+    given attributes"""
+    m = types.ModuleType("vm_harness_model_" + attrs.get("model_key", "x"))
+    for k, v in attrs.items():
+        setattr(m, k, v)
+    return m
+
+
 def _defaults_factory(spec):
     def get_parameter_defaults():
         import lmfit
@@ -106,21 +115,21 @@ def build():
                  ("baseline", dict(value=0))]
     para_names = ["Young's Modulus", "Tip Radius", "Poisson's Ratio",
                   "Contact Point", "Force Baseline"]
-    m_order = types.SimpleNamespace(
+    m_order = _module(
         get_parameter_defaults=_defaults_factory(para_spec),
         model_doc="order sensitive", model_func=hm_order_func,
         model_key="hm_order", model_name="harness order-sensitive",
         parameter_keys=["E", "R", "nu", "contact_point", "baseline"],
         parameter_names=list(para_names),
         parameter_units=["Pa", "m", "", "m", "N"], **common)
-    m_sig = types.SimpleNamespace(
+    m_sig = _module(
         get_parameter_defaults=_defaults_factory(para_spec),
         model_doc="permuted signature", model_func=hm_sig_func,
         model_key="hm_sig", model_name="harness permuted signature",
         parameter_keys=["E", "R", "nu", "contact_point", "baseline"],
         parameter_names=list(para_names),
         parameter_units=["Pa", "m", "", "m", "N"], **common)
-    m_long = types.SimpleNamespace(
+    m_long = _module(
         get_parameter_defaults=_defaults_factory(para_spec),
         model_doc="long range", model_func=hm_long_func,
         model_key="hm_long", model_name="harness long-range force",
@@ -132,7 +141,7 @@ def build():
                  ("nu", dict(value=.5, min=0, max=.5, vary=False)),
                  ("contact_point", dict(value=0)),
                  ("baseline", dict(value=0))]
-    m_anc = types.SimpleNamespace(
+    m_anc = _module(
         get_parameter_defaults=_defaults_factory(cone_spec),
         model_doc="with ancillaries", model_func=hm_anc_func,
         model_key="hm_anc", model_name="harness ancillaries",
@@ -159,13 +168,13 @@ def build():
                   "Virtual Parameter", "Another Modulus", "Contact Point",
                   "Force Baseline"]
     expr_units = ["Pa", "m", "", "Pa", "Pa", "m", "N"]
-    m_expr = types.SimpleNamespace(
+    m_expr = _module(
         get_parameter_defaults=_defaults_factory(expr_spec),
         model_doc="expression", model_func=hm_expr_func,
         model_key="hm_expr", model_name="harness expression",
         parameter_keys=list(expr_keys), parameter_names=list(expr_names),
         parameter_units=list(expr_units), **common)
-    m_own = types.SimpleNamespace(
+    m_own = _module(
         get_parameter_defaults=_defaults_factory(expr_spec),
         model_doc="own model/residual", model_func=hm_expr_func,
         model_key="hm_own", model_name="harness own functions",
